@@ -19,9 +19,25 @@ pub struct Endpoint {
     log: TempFile,
 }
 
+/// A port for an endpoint that is started a moment later. Ports come from a range below the
+/// ephemeral one, partitioned by worker, so that concurrently running workers (and the kernel's
+/// own choice of ephemeral ports) cannot hand the same number to two endpoints; the port is
+/// checked to be free for TCP and UDP on IPv4 and IPv6 loopback.
 pub fn free_port() -> std::io::Result<u16> {
-    let l = std::net::TcpListener::bind("127.0.0.1:0")?;
-    Ok(l.local_addr()?.port())
+    static NEXT: std::sync::atomic::AtomicU32 = std::sync::atomic::AtomicU32::new(0);
+    let shard = crate::engine::SHARD.load(std::sync::atomic::Ordering::SeqCst) as u32 % 16;
+    let salt = std::process::id().wrapping_mul(37);
+    for _ in 0..1200 {
+        let n = NEXT.fetch_add(1, std::sync::atomic::Ordering::SeqCst);
+        let port = (10_000 + shard * 1200 + (salt.wrapping_add(n) % 1200)) as u16;
+        let tcp4 = std::net::TcpListener::bind(("127.0.0.1", port));
+        let udp4 = std::net::UdpSocket::bind(("127.0.0.1", port));
+        let tcp6 = std::net::TcpListener::bind(("::1", port));
+        if tcp4.is_ok() && udp4.is_ok() && (tcp6.is_ok() || tcp6.as_ref().err().map(|e| e.kind()) != Some(std::io::ErrorKind::AddrInUse)) {
+            return Ok(port);
+        }
+    }
+    Err(std::io::Error::new(std::io::ErrorKind::AddrInUse, "no free port in this worker's range"))
 }
 
 /// Start the endpoint on files that already exist (paths relative to `cwd`)
